@@ -84,7 +84,9 @@ def make_pool(rng):
             for _ in range(2):
                 m2 = str(rng.choice(REAL_METHODS)) if method in REAL_METHODS else method
                 n2 = int(rng.integers(0, 3)) if m2 == 'multicomplex' else int(rng.integers(0, 6))
-                alts.append(dict(method=m2, n=n2, order=int(rng.choice([1, 2, 4, 6]))))
+                which = [str(v) for v in rng.permutation(['n', 'order', 'method'])[:int(rng.integers(1, 4))]]
+                alts.append(dict(method=m2, n=n2, order=int(rng.choice([1, 2, 4, 6])), which=which,
+                                 restore=[str(v) for v in rng.permutation(which)]))
             cfg['alts'] = alts
             pool.append(cfg)
     return pool
@@ -228,9 +230,9 @@ def cases(rng, tier, shard, nshards):
                 ops.append(['share', 2 * int(rng.integers(0, 6))])
             elif u < 0.85:
                 ops.append(['clear_cache'])
-            elif u < 0.90:
+            elif u < 0.88:
                 ops.append(['prepopulate', [int(v) for v in rng.integers(0, 12, size=3)]])
-            elif u < 0.95:
+            elif u < 0.96:
                 ops.append(['prepopulate_all_parities'])
             else:
                 ops.append(['reuse_other_point', i_cfg])
@@ -305,25 +307,31 @@ def run_case(case, ctx):
                     objs[i] = build(nd, cfg)
                 d = objs[i]
                 ctx.count('mutate_restore_ops')
+                # only the attributes named in alt['which'] are set (in that order), and later restored in alt['restore'] order:
+                # a setter that forgets to invalidate derived state is not rescued by a neighbouring setter that does
+                switched = dict(method=cfg['method'], n=cfg['n'], order=cfg['order'])
                 try:
-                    d.method = alt['method']
-                    d.n = alt['n']
-                    d.order = alt['order']
+                    for attr in alt['which']:
+                        if attr == 'n' and switched['method'] == 'multicomplex' and alt['n'] > 2:
+                            continue
+                        if attr == 'method' and alt['method'] == 'multicomplex' and switched['n'] > 2:
+                            continue
+                        setattr(d, attr, alt[attr])
+                        switched[attr] = alt[attr]
                     got_alt = call(d, cfg['points'][0])
                 finally:
-                    d.method = cfg['method']
-                    d.n = cfg['n']
-                    d.order = cfg['order']
+                    for attr in alt['restore']:
+                        setattr(d, attr, cfg[attr])
                 # the switched object is the configuration (fun, alt, step): judged against its own fresh reference
                 akey = ('alt', i, a)
                 if akey not in _S['refs']:
-                    acfg = dict(cfg, method=alt['method'], n=alt['n'], order=alt['order'])
+                    acfg = dict(cfg, **switched)
                     _S['refs'][akey] = fresh_reference(acfg, 0)
                     ctx.count('fresh_interpreter_references')
                 ctx.count('history_calls_compared')
                 if got_alt != _S['refs'][akey]:
                     ctx.reject('result_differs_from_fresh_interpreter_evaluation', observed=got_alt, expected=_S['refs'][akey],
-                               detail=dict(where='after_setting_n_order_method', config=cfg, switched_to=alt,
+                               detail=dict(where='after_setting_n_order_method', config=cfg, switched_to=switched, set_order=alt['which'],
                                            extra=dict(ops=case['ops'])), where='after_setting_n_order_method')
                     return
                 got = call(d, cfg['points'][0])
